@@ -196,6 +196,7 @@ theorem newSlot_free (slots : List (Option Nat)) :
       (slots[newSlot slots]? = some none ∨ slots.length ≤ newSlot slots) := by
   obtain ⟨h1, h2, h3⟩ := newSlot_go (slots.drop 1) 1
   unfold newSlot
+  rw [firstUserSlot_spec]
   simp only [List.length_drop] at h2 h3
   refine ⟨h1, by omega, ?_⟩
   rcases h3 with h3 | h3
